@@ -2,3 +2,4 @@
 import AJ.Props.C02
 import AJ.Props.C02Parse
 import AJ.Props.SlotCor
+import AJ.Props.DocGen
